@@ -95,12 +95,26 @@ def build(w, V, K, it, sc):
         if full == "os.path.exists":
             return sc.source == "userdir"
         return MISSING
-    node = Obj(nodes["NodeRequire"], {"modulespec": Obj(nodes["NodeIdentifier"], {"value": sc.spec, "pos": None}) if "/" not in sc.spec
-                                      else Obj(nodes["NodeLiteral"], {"value": V._mk("ValueString", {"value": sc.spec}), "pos": None}),
-                                      "name": sc.alias, "unqualified": sc.form == "unqualified",
-                                      "symbols": PDict([[k_, v_] for k_, v_ in (sc.symbols or {}).items()]) if sc.form == "import" else None,
-                                      "pos": V.pos(it)})
+    # the require node is what the real parser builds from the statement text (so the representation of the import list is the
+    # parser's own, and the parser's handling of the list is part of what is verified)
+    pairs = list(sc.symbols.items()) if isinstance(sc.symbols, dict) else list(sc.symbols or [])
+    text = "require " + (sc.spec if "/" not in sc.spec else "'" + sc.spec + "'")
+    if sc.form == "unqualified":
+        text += " unqualified"
+    elif sc.form == "import":
+        text += " import [" + ", ".join(k_ if k_ == a_ else f"{k_} as {a_}" for k_, a_ in pairs) + "]"
+    elif sc.alias:
+        text += " as " + sc.alias
+    saved = it.abstractions, it.max_unroll
+    it.abstractions, it.max_unroll = {}, 10 * len(text) + 100      # the scanner runs over a concrete text: plain execution
+    try:
+        node = it.call(w.func("parser.py::parse_script"), [text, "importer.ckl"])
+    finally:
+        it.abstractions, it.max_unroll = saved
+    if not (isinstance(node, Obj) and node.cls.name == "NodeRequire"):
+        it.unsupported("the parser did not build a require node from " + text)
     node.fresh = False
+    ctx["text"] = text
     ctx["abstractions"] = {"parse_script": parse_abs}
     ctx["external_call"] = external_call
     return node, importer, ctx
